@@ -28,6 +28,6 @@ cp $DEMO $D/$PKG/demo_mutant_test.go
 rm -f $D/$PKG/demo_mutant_test.go
 for c in ${CHECKS//,/ }; do
   echo "== check $c $TIER against patched copy"
-  (cd /verif && VERIF_REPO=$D ./check $c $TIER > $D/check.out 2>&1; echo "check-exit=$?" >> $D/check.out)
+  (cd ${VERIF_HOME:-/verif} && VERIF_REPO=$D ./check $c $TIER > $D/check.out 2>&1; echo "check-exit=$?" >> $D/check.out)
   grep -v "^\[verif\] built" $D/check.out | cut -c1-300 | head -30; tail -1 $D/check.out
 done
